@@ -39,24 +39,25 @@ const (
 type decision struct{ fault int }
 
 type hthread struct {
-	id      int
-	gate    chan decision
-	atGate  bool
-	pending string
-	obs     [][]int64 // observations of operations executed since the last release
-	done    bool
-	panicv  any
-	cancel  context.CancelFunc
-	passEval bool
-	idpRT    string
+	id          int
+	gate        chan decision
+	atGate      bool
+	pending     string
+	obs         [][]int64 // observations of operations executed since the last release
+	done        bool
+	panicv      any
+	cancel      context.CancelFunc
+	passEval    bool
+	idpRT       string
+	pendingKind string
 	// results
-	status   int
-	upAuthz  string
-	upIDTok  string
-	upHit    bool
-	body     []byte
+	status     int
+	upAuthz    string
+	upIDTok    string
+	upHit      bool
+	body       []byte
 	setCookies []string
-	location string
+	location   string
 }
 
 var errInjected = errors.New("verif: injected store fault")
